@@ -1,7 +1,7 @@
 (** C14 -- property file: the full statement, what is proved (closed by [exact]), the instantiation obligation on
     the facts regenerated from /repo, non-vacuity examples, Print Assumptions.  The refutations of the full statement
     on the faithful model (one per known finding) are in props/C14_refuted.v. *)
-From SF Require Import Base.Val C14.Writer C14.WriterProof.
+From SF Require Import Base.Val C14.Writer C14.WriterProof C14.Views.
 From Gen Require Import C14Facts.
 Open Scope string_scope.
 
@@ -111,6 +111,21 @@ Theorem C14_roundtrip_path :
 Proof. exact (fun st p f a s t => roundtrip_path gen_cfg duckdb_residue st p f a s t gen_cfg_ok). Qed.
 Print Assumptions C14_roundtrip_path.
 
+(** namesakes: the same refinement with session temporary views (shadow session.table, show in the catalog API, never
+    influence a write), the guarded re-create `if not tableExists`, and same-named tables in another schema (no-ops) *)
+Theorem C14_partial_namesakes :
+  forall ops xs, x_hist_ok gen_cfg duckdb_residue xs ops = true ->
+    x_s_run (x_abs xs) ops = (x_abs (fst (x_m_run gen_cfg duckdb_residue xs ops)), snd (x_m_run gen_cfg duckdb_residue xs ops)).
+Proof. exact (x_modes_refine_spec gen_cfg duckdb_residue gen_cfg_ok). Qed.
+Print Assumptions C14_partial_namesakes.
+
+Theorem C14_views_do_not_touch_writes :
+  forall st vs o, is_write o = true ->
+    x_m_step gen_cfg duckdb_residue (st, vs) (XOp o)
+    = ((fst (m_step gen_cfg duckdb_residue st o), vs), snd (m_step gen_cfg duckdb_residue st o)).
+Proof. exact (views_do_not_touch_writes gen_cfg duckdb_residue). Qed.
+Print Assumptions C14_views_do_not_touch_writes.
+
 (** * The domain is inhabited: all six modes on a table and on files, insertInto positional and byName (after the
       table has been read once), reads, catalog calls, a drop, failing frames on a table and on an existing file *)
 Definition fr_as : tbl := mkTbl [("a", TInt); ("s", TStr)] [[VInt 1; VStr "x"]; [VInt 2; VNull]].
@@ -154,4 +169,13 @@ Example C14_fault_hyp_file :
   atomic_at duckdb_residue st (OpWrite "p" FCsv (Some "overwrite") None (DBad fr_file)) = true
   /\ snd (m_step gen_cfg duckdb_residue st (OpWrite "p" FCsv (Some "overwrite") None (DBad fr_file))) = OErr EFailed.
 Proof. vm_compute. split; reflexivity. Qed.
+
+(** the namesake layer's domain is inhabited *)
+Example C14_namesakes_nonempty :
+  x_hist_ok gen_cfg duckdb_residue (m_init, [])
+    [XForeign "t"; XTempView "t" (mkTbl [("v", TInt)] [[VInt 5]]); XOp (OpSave "t" (Some "ignore") None (DGood fr_as));
+     XOp (OpExists "t"); XOp OpList; XOp (OpReadTable "t"); XOp (OpInsert "t" true (DGood fr_sa)); XGuardedSave "t" (DGood fr_as2);
+     XOp (OpDrop "t"); XOp (OpExists "t"); XGuardedSave "t" (DGood fr_as2); XGuardedSave "u" (DGood fr_as2); XOp (OpReadTable "u")]
+  = true.
+Proof. vm_compute. reflexivity. Qed.
 
